@@ -28,6 +28,7 @@ def run(ctx):
     ctx.guard("R15.2", "bom", lambda: tr.bom_rule(ctx, "R15.2", "xml"))
     ctx.guard("R15.3", "pushback", lambda: tr.pushback_taint(ctx, "R15.3", "xml"))
     ctx.guard("R15.4", "ignore_lf", lambda: tr.ignore_lf_rule(ctx, "R15.4", "xml"))
+    ctx.guard("R15.1", "wrapper-gate", lambda: tr.wrapper_fast_path_gate(ctx, "R15.1", "xml"))
     ctx.guard("R15.4", "ignore_lf-consumed", lambda: tr.ignore_lf_consumed_when_seen(ctx, "R15.4", "xml"))
     ctx.guard("R15.5", "suspend", lambda: tr.suspend_before_effect(ctx, "R15.5", "xml"))
     ctx.guard("R15.5", "charref-stuck", lambda: tr.charref_needs_more_input_means_stuck(ctx, "R15.5", "xml"))
